@@ -1,10 +1,187 @@
-import MitmVerif.Model.C26
-import MitmVerif.Lemmas.C25Msg
+/-
+  C26 — forwarded DNS messages keep their meaning: property theorems.
+  (models: Model/C25.lean codec, Model/C26.lean DnsRef + layer; lemmas: Lemmas/C26.lean, Lemmas/C26Msg.lean)
+-/
+import MitmVerif.Lemmas.C26Msg
+set_option linter.unusedVariables false
+set_option linter.unusedSimpArgs false
 namespace MitmVerif.Props.C26
 open MitmVerif MitmVerif.C25 MitmVerif.C26
 
+/-! ### concrete evaluations by the kernel (non-vacuity; kept first, they check much faster here) -/
+
+/-- a server-style compressed response: question a.io MX; answers: MX with preference 0xC00C and a compressed
+    exchange name, TXT "\\x02\\xc0\\x0c" (pointer look-alike), CNAME to a compressed name -/
+def exampleResponse : Bytes :=
+  [0x12,0x34,0x81,0x80,0x0,0x1,0x0,0x3,0x0,0x0,0x0,0x0, 0x1,0x61,0x2,0x69,0x6f,0x0, 0x0,0xf,0x0,0x1,
+   0xc0,0xc, 0x0,0xf,0x0,0x1, 0x0,0x0,0x0,0x3c, 0x0,0x7, 0xc0,0xc, 0x2,0x6d,0x78,0xc0,0xc,
+   0xc0,0xc, 0x0,0x10,0x0,0x1, 0x0,0x0,0x0,0x3c, 0x0,0x3, 0x2,0xc0,0xc,
+   0xc0,0xc, 0x0,0x5,0x0,0x1, 0xc0,0xc,0xc0,0xc, 0x0,0x4, 0x1,0x57,0xc0,0x24]
+
+/-- the specification reads it, the proxy forwards one (uncompressed, longer) datagram, and the specification reads
+    that datagram identically -/
+def exampleForwardOk : Bool :=
+  match forwardUdp noIdna exampleResponse with
+  | .sent [b'] => (DnsRef.decode exampleResponse).isSome && decide (b' ≠ exampleResponse) &&
+      decide (DnsRef.decode b' = DnsRef.decode exampleResponse)
+  | _ => false
+
+example : exampleForwardOk = true := by decide +kernel
+-- the specification rejects forward pointers and truncated records; the layer closes on a parse error
+example : DnsRef.decode [0,1,1,0,0,1,0,0,0,0,0,0, 0xc0,0x0e, 0,1,0,1] = none := by decide +kernel
+example : forwardUdp noIdna [0,1,1,0,0,1,0,0,0,0,0,0, 0xc0,0x0c, 0,1,0,1] = .closed := by decide +kernel
+example : forwardTcp noIdna (frame [0,1,1,0,0,1,0,0,0,0,0,0, 1,0x61,0, 0,1,0,1]) =
+    .sent [frame [0,1,1,0,0,1,0,0,0,0,0,0, 1,0x61,0, 0,1,0,1]] := by decide +kernel
+
+/-! ### the theorems -/
+
+/-- **C26 (codec level).** If the specification decoder reads `b` as `d` and the proxy's codec decodes `b` and
+    re-encodes it as `b'`, then the specification decoder reads `b'` as the same `d`: same id and flag word, same
+    questions, same records; every name label for label (case preserved); record data equal after expanding
+    compressed names at the positions the RFC layout of the type defines. For every idna codec. -/
+theorem repack_preserves (I : Idna) (b b' : Bytes) (d : DnsRef.RMsg) (m : Msg)
+    (hd : DnsRef.decode b = some d) (hu : unpack I b = some m) (hp : pack I m = some b') :
+    DnsRef.decode b' = some d :=
+  decode_packed (decode_agree hd hu) hp
+
+/-- **C26 (UDP).** A datagram that the specification decoder can read is, when `DNSLayer` forwards it unmodified,
+    delivered as exactly one datagram that the specification decoder reads identically. -/
+theorem forward_preserves (I : Idna) (b : Bytes) (d : DnsRef.RMsg) (outs : List Bytes)
+    (hd : DnsRef.decode b = some d) (hf : forwardUdp I b = .sent outs) :
+    ∃ b', outs = [b'] ∧ DnsRef.decode b' = some d := by
+  unfold forwardUdp at hf
+  cases hu : unpack I b with
+  | none => simp [hu] at hf
+  | some m =>
+    simp only [hu] at hf
+    cases hp : pack I m with
+    | none => simp [hp] at hf
+    | some b' =>
+      simp [hp] at hf
+      exact ⟨b', hf.symm, repack_preserves I b b' d m hd hu hp⟩
+
+/-- a message the codec decoded always encodes again: `pack_message` cannot raise on an unmodified message -/
+theorem decoded_message_encodes (I : Idna) (b : Bytes) (m : Msg) (hu : unpack I b = some m) : ∃ b', pack I m = some b' :=
+  pack_ok (unpack_wellFormed0 hu)
+
+/-- **C26 (no crash, UDP).** Forwarding an unmodified datagram either closes on a parse error or sends; the layer
+    never raises. -/
+theorem forward_never_crashes (I : Idna) (b : Bytes) : forwardUdp I b ≠ .crashed := by
+  unfold forwardUdp
+  cases hu : unpack I b with
+  | none => simp
+  | some m =>
+    obtain ⟨b', hp⟩ := decoded_message_encodes I b m hu
+    simp [hp]
+
+private theorem mapM'_pack_of_unpack (I : Idna) : ∀ (bs : List Bytes) (ms : List Msg), mapM' (unpack I) bs = some ms →
+    ∃ outs, mapM' (pack I) ms = some outs := by
+  intro bs
+  induction bs with
+  | nil => intro ms h; simp [mapM'] at h; subst h; exact ⟨[], rfl⟩
+  | cons b bs ih =>
+    intro ms h
+    simp only [mapM'] at h
+    cases hu : unpack I b with
+    | none => simp [hu] at h
+    | some m =>
+      cases hr : mapM' (unpack I) bs with
+      | none => simp [hu, hr] at h
+      | some ms' =>
+        simp [hu, hr] at h; subst h
+        obtain ⟨b', hp⟩ := decoded_message_encodes I b m hu
+        obtain ⟨outs, ho⟩ := ih ms' hr
+        exact ⟨b' :: outs, by simp [mapM', hp, ho]⟩
+
+/-- **C26 (no crash, TCP).** -/
+theorem forward_never_crashes_tcp (I : Idna) (data : Bytes) : forwardTcp I data ≠ .crashed := by
+  unfold forwardTcp
+  cases tcpFrames data.length data with
+  | none => simp
+  | some frames =>
+    simp only
+    cases hm : mapM' (unpack I) frames with
+    | none => simp
+    | some msgs =>
+      obtain ⟨outs, ho⟩ := mapM'_pack_of_unpack I frames msgs hm
+      simp [ho]
+
+private theorem frame_toNat (b : Bytes) (h : b.length < 65536) :
+    (UInt8.ofNat (b.length / 256)).toNat * 256 + (UInt8.ofNat (b.length % 256)).toNat = b.length := by
+  rw [toNat_ofNat_lt (by omega), toNat_ofNat_lt (by omega)]; omega
+
+/-- the framing loop of `unpack_message` recovers the frames of a stream of complete frames -/
+private theorem tcpFrames_frames : ∀ (bs : List Bytes) (fuel : Nat), (∀ b ∈ bs, 0 < b.length ∧ b.length < 65536) →
+    (bs.flatMap frame).length ≤ fuel → tcpFrames fuel (bs.flatMap frame) = some bs := by
+  intro bs
+  induction bs with
+  | nil => intro fuel _ _; cases fuel <;> simp [tcpFrames]
+  | cons b bs ih =>
+    intro fuel hb hfuel
+    obtain ⟨hpos, hlt⟩ := hb b (by simp)
+    cases fuel with
+    | zero => simp [frame] at hfuel
+    | succ fuel =>
+      simp only [List.flatMap_cons, frame, List.cons_append, tcpFrames]
+      rw [frame_toNat b hlt]
+      have h0 : ¬ b.length = 0 := by omega
+      have h1 : ¬ (b ++ bs.flatMap frame).length < b.length := by simp
+      simp only [h0, h1, if_false, List.drop_left, List.take_left]
+      rw [ih fuel (fun x hx => hb x (by simp [hx])) (by simp [frame] at hfuel ⊢; omega)]
+      rfl
+
+/-- **C26 (TCP).** A segment made of complete frames, each holding a message the specification decoder can read:
+    if `DNSLayer` forwards it, it sends one frame per message, in order, and the specification decoder reads every
+    forwarded message identically. -/
+theorem forward_preserves_tcp (I : Idna) : ∀ (bs : List Bytes) (ds : List DnsRef.RMsg) (outs : List Bytes),
+    (∀ b ∈ bs, 0 < b.length ∧ b.length < 65536) → Rel2 (fun b d => DnsRef.decode b = some d) bs ds →
+    forwardTcp I (bs.flatMap frame) = .sent outs →
+    ∃ bs', outs = bs'.map frame ∧ Rel2 (fun b' d => DnsRef.decode b' = some d) bs' ds := by
+  intro bs ds outs hb hrel hf
+  unfold forwardTcp at hf
+  rw [tcpFrames_frames bs _ hb (Nat.le_refl _)] at hf
+  simp only at hf
+  cases hm : mapM' (unpack I) bs with
+  | none => simp [hm] at hf
+  | some msgs =>
+    simp only [hm] at hf
+    cases ho : mapM' (pack I) msgs with
+    | none => simp [ho] at hf
+    | some packed =>
+      simp [ho] at hf
+      refine ⟨packed, hf.symm, ?_⟩
+      clear hf hb
+      induction hrel generalizing msgs packed with
+      | nil =>
+        simp [mapM'] at hm; subst hm
+        simp [mapM'] at ho; subst ho
+        exact Rel2.nil
+      | @cons b d bs ds hd _ ih =>
+        simp only [mapM'] at hm
+        cases hu : unpack I b with
+        | none => simp [hu] at hm
+        | some m =>
+          cases hr : mapM' (unpack I) bs with
+          | none => simp [hu, hr] at hm
+          | some ms' =>
+            simp [hu, hr] at hm; subst hm
+            simp only [mapM'] at ho
+            cases hp : pack I m with
+            | none => simp [hp] at ho
+            | some b' =>
+              cases hr2 : mapM' (pack I) ms' with
+              | none => simp [hp, hr2] at ho
+              | some outs' =>
+                simp [hp, hr2] at ho; subst ho
+                exact Rel2.cons (repack_preserves I b b' d m hd hu hp) (ih ms' hr outs' hr2)
+
+/-- **C26 (opaque types byte for byte).** A record whose type has no name-bearing layout (TXT, A, AAAA, unknown
+    types …) is decoded with exactly the bytes of its RDATA, and `pack` writes `data` verbatim. -/
 theorem opaque_types_bytewise (buf : Bytes) (off len ty : Nat) (h : layoutOf ty = none) :
     rrData buf off len ty = some ((buf.drop off).take len) := by
   simp [rrData, h]
+
+/-- the layout table generated from the code's `_RDATA_LAYOUT` is the specification's RFC table, for every type -/
+theorem code_layout_is_rfc_layout (ty : Nat) : layoutOf ty = DnsRef.layout ty := layout_agrees ty
 
 end MitmVerif.Props.C26
